@@ -74,6 +74,10 @@ Del == IsEv("del") /\ Ok(Without(fs, E.o), disk, opens, IF H.open THEN closes + 
 Destruct == IsEv("destruct") /\ Ok(With(fs, E.o, Closed), disk, opens, IF H.open THEN closes + 1 ELSE closes)
 Construct == IsEv("construct") /\ ~H.open
              /\ Ok(With(fs, E.o, Opened(E.a, E.b)), IF Truncates(E.b) THEN [disk EXCEPT ![E.a] = <<>>] ELSE disk, opens + 1, closes)
+(* a close whose flush is refused raises IOError; the C library has closed the stream nevertheless: exactly one fclose, the *)
+(* handle is gone, and deleting the File afterwards neither raises nor closes again                                       *)
+FullClose == /\ IsEv("fullclose") /\ E.exc \in {"IOError", "noopen"} /\ E.delexc = "" /\ E.cleared = 1 /\ E.closes = 1
+             /\ fs' = fs /\ disk' = disk /\ opens' = opens + (IF E.exc = "noopen" THEN 0 ELSE 1) /\ closes' = closes + (IF E.exc = "noopen" THEN 0 ELSE 1)
 PrintEv == IsEv("print") /\ IF ~H.open THEN Refused
          ELSE /\ E.r = Len(Text(E.a))
               /\ Ok(With(fs, E.o, [H EXCEPT !.pos = WritePos(H, C) + Len(Text(E.a))]), [disk EXCEPT ![H.path] = Overwrite(@, WritePos(H, @), Text(E.a))], opens, closes)
@@ -85,7 +89,7 @@ ScanEv == IsEv("scan") /\ IF ~H.open THEN Refused
              /\ LET np == IF r[2] <= Len(C) /\ C[r[2]] = 32 THEN r[2] ELSE r[2] - 1 IN      \* the blank after the digits is consumed
                 Ok(With(fs, E.o, [H EXCEPT !.pos = np, !.eof = (np = Len(C)) \/ H.eof]), disk, opens, closes)   \* looking for more white space hits the end
 
-Next == Reset \/ End \/ New \/ Open \/ Write \/ Read \/ Seek \/ Tell \/ Eof \/ Flush \/ Close \/ WithBegin \/ Del \/ Destruct \/ Construct \/ PrintEv \/ ScanEv
+Next == Reset \/ End \/ New \/ Open \/ Write \/ Read \/ Seek \/ Tell \/ Eof \/ Flush \/ Close \/ WithBegin \/ Del \/ Destruct \/ Construct \/ FullClose \/ PrintEv \/ ScanEv
 Spec == Init /\ [][Next]_vars
 Accepted == LET d == TLCGet("stats").diameter IN
             /\ PrintT(<<"TRACE_MATCHED", d - 1, Len(T)>>)
